@@ -177,6 +177,7 @@ def interpolation_shape(P, rep, rule="I1"):
                 par = F.parent.get(par["i"])
             n += 1
             ok = False
+            gp = par
             why = "section_fraction is used outside a product"
             if par is not None and par.get("k") == "BinaryOperator" and par.get("op") == "*":
                 other = par["c"][1] if sc(par["c"][0]) is x else par["c"][0]
@@ -225,8 +226,12 @@ def interpolation_shape(P, rep, rule="I1"):
                         ok = True
                 else:
                     why = "section_fraction multiplies %s which is not a difference added to a base term" % R(other)[:50]
-            if not ok and par is not None and par.get("k") == "CXXOperatorCallExpr" and norm.lambda_call(par, norm.naming_locals(P, F)) is not None:
-                # f handed to a single-return local lambda: judge the call with the body substituted (beta reduction), algebraically
+            is_lam = par is not None and par.get("k") == "CXXOperatorCallExpr" and norm.lambda_call(par, norm.naming_locals(P, F)) is not None
+            is_helper = par is not None and par.get("k") == "CallExpr" and norm.helper_call(P, F, par) is not None
+            if not ok and (is_lam or is_helper):
+                # f handed to a single-return local lambda / file-local helper: judge the call with the body substituted (beta
+                # reduction), algebraically: affine in f, value at f=0 belongs to the current section, value at f=1 is the same
+                # expression for the next section (= current + 1)
                 import sympy as sp
                 symb = norm.Sym(P, F, inline_locals=False)
                 E = sp.expand(symb(par))
@@ -234,19 +239,22 @@ def interpolation_shape(P, rep, rule="I1"):
                 cs = [q for q in E.free_symbols if str(q).startswith("current_section@")]
                 ns = [q for q in E.free_symbols if str(q).startswith("next_section@")]
                 gp = par
-                if len(fs) == 1 and len(cs) == 1 and len(ns) == 1:
+                if len(fs) == 1 and len(cs) == 1 and len(ns) <= 1:
                     f_ = fs[0]
+                    if ns:
+                        E = sp.expand(E.xreplace({ns[0]: cs[0] + 1}))
                     try:
                         deg = sp.Poly(E, f_).degree()
                     except Exception:
                         deg = -1
                     A0, B0 = sp.expand(E.subs(f_, 0)), sp.expand(E.subs(f_, 1))
-                    if deg == 1 and not A0.has(ns[0]) and sp.expand(A0.xreplace({cs[0]: ns[0]}) - B0) == 0:
+                    nxt = sp.expand(A0.xreplace({cs[0]: cs[0] + 1}))
+                    if deg == 1 and A0.has(cs[0]) and sp.expand(nxt - B0) == 0:
                         ok = True
                     else:
-                        why = "the lambda call %s is not cur + f*(nxt - cur)" % R(par)[:60]
+                        why = "the call %s is not cur + f*(nxt - cur)" % R(par)[:60]
                 else:
-                    why = "the lambda call %s does not interpolate between the current and the next section" % R(par)[:60]
+                    why = "the call %s does not interpolate between the current and the next section" % R(par)[:60]
             if not ok and par is not None and par.get("k") == "CallExpr" and P.d(par.get("callee")).get("qn", "").endswith("quaternion::slerp"):
                 # orientation: slerp(q(cur), q(nxt), f) -- the spherical analogue of cur + f*(nxt - cur)
                 a = [sc(z) for z in par["c"][1:]]
